@@ -224,12 +224,42 @@ pub fn check_conv(c: &ConvCase) -> CheckResult {
     Ok(o)
 }
 
+/// copy_surface / blend_surface / blend_surface_with_alpha are drawing calls too (they do not go through
+/// composite or the span blitters): C15's cases, judged for the premultiplied invariant only
+pub fn check_surfaces(c: &super::c15::Case, steer: bool) -> CheckResult {
+    let mut o = Outcome::new();
+    o.fp = fp_of(c);
+    if first_invalid(&c.src).is_some() || first_invalid(&c.dst).is_some() {
+        return Err("HARNESS: generated surface contents are not premultiplied".into());
+    }
+    if steer && c.kind == 1 && c.mode >= 24 {
+        o.excluded_known = 1;
+        return Ok(o);
+    }
+    let got = super::c15::run_impl(c);
+    if let Some(i) = first_invalid(&got) {
+        return Err(format!(
+            "after {} (mode {}, alpha {}) of premultiplied surfaces destination pixel ({},{}) = {} has a colour channel above its alpha",
+            ["copy_surface", "blend_surface", "blend_surface_with_alpha"][c.kind.min(2) as usize],
+            blend_name(c.mode),
+            c.alpha,
+            i as i32 % c.dw.max(1),
+            i as i32 / c.dw.max(1),
+            hex(got[i])
+        ));
+    }
+    o.judged = got.len() as u64;
+    o.nontrivial = got != c.dst && c.kind != 0;
+    o.class(["copy_surface", "blend_surface", "blend_surface_with_alpha"][c.kind.min(2) as usize]);
+    Ok(o)
+}
+
 pub fn property(ctx: &Ctx) -> Property {
     let c = ctx.clone();
     let steer = ctx.excluded(NONSEP_KEY);
     Property {
         id: "C18",
-        rule: "part scenes: nested scenes (clips, layers with any opacity/blend, fills, fill_rects, strokes, masks, clear, image draws; solid/image/gradient sources incl. zero-length linear gradients, 28 modes, alpha in [0,1], all transform classes) on premultiplied initial contents; after every call every pixel of get_data() must satisfy r,g,b <= a. part sweep: exhaustive blend mode (28) x opacity-coverage byte {0,1,127,128,254,255} x {no clip, partial clip path} over a premultiplied boundary lattice of (source, destination) pairs, delivered through a layer. part conv: SolidSource::from_unpremultiplied_argb, From<Color> for SolidSource and From<Color> for Source for all 256 alphas x 256 channel values: premultiplied and = round(a*c/255). Non-trivial: a call with a mode outside {Dst,Src,Clear,SrcOver} on a destination holding translucent pixels; distinct by hash of the case.",
+        rule: "part scenes: nested scenes (clips, layers with any opacity/blend, fills, fill_rects, strokes, masks, clear, image draws; solid/image/gradient sources incl. zero-length linear gradients, 28 modes, alpha in [0,1], all transform classes) on premultiplied initial contents; after every call every pixel of get_data() must satisfy r,g,b <= a. part sweep: exhaustive blend mode (28) x opacity-coverage byte {0,1,127,128,254,255} x {no clip, partial clip path} over a premultiplied boundary lattice of (source, destination) pairs, delivered through a layer. part conv: SolidSource::from_unpremultiplied_argb, From<Color> for SolidSource and From<Color> for Source for all 256 alphas x 256 channel values: premultiplied and = round(a*c/255). part surfaces: C15's copy_surface / blend_surface (28 modes) / blend_surface_with_alpha (alpha in [0,1]) cases between premultiplied surfaces, judged for the invariant. Non-trivial: a call with a mode outside {Dst,Src,Clear,SrcOver} on a destination holding translucent pixels; distinct by hash of the case.",
         assumptions: vec![
             "checked build (overflow checks + debug assertions): sw_composite::pack_argb32's own debug assertion r,g,b <= a is live and counts as the same invariant; its known failures in the four non-separable modes are listed findings",
             "a second pass (sweep + 20% of the scenes) runs in a build without overflow checks and debug assertions (what users ship), where arithmetic slips wrap instead of panicking; see coverage.unchecked_profile",
@@ -238,8 +268,9 @@ pub fn property(ctx: &Ctx) -> Property {
             part("scenes", 100_000, 2_000_000, move || strategy(&c), check),
             enum_part("sweep", 28 * 12, 28 * 12, sweep_decode, move |c| check_sweep(c, steer)),
             enum_part("conv", 256, 256, |_t, i| ConvCase { a: i as u8 }, check_conv),
+            part("surfaces", 30_000, 400_000, super::c15::strategy, move |c| check_surfaces(c, steer)),
         ],
-        min_class_fraction: vec![("scenes", "blend:separable-or-nonseparable", 0.2), ("scenes", "op:pop_layer", 0.2), ("scenes", "src:zero-length-gradient", 0.02)],
+        min_class_fraction: vec![("scenes", "blend:separable-or-nonseparable", 0.2), ("scenes", "op:pop_layer", 0.2), ("scenes", "src:zero-length-gradient", 0.02), ("surfaces", "blend_surface_with_alpha", 0.15)],
         panic_is_violation: false,
     }
 }
